@@ -3,6 +3,7 @@
 package tracer
 
 import (
+	"os"
 	"bytes"
 	"context"
 	"errors"
@@ -331,6 +332,8 @@ type c16BuilderCase struct {
 	AppClose          int    `json:"app_close_after_reads"`
 	RespDelayUs       int    `json:"response_after_us"`
 	ConcurrentReqBody bool   `json:"request_body_read_concurrently"`
+	TransportErrKind int  `json:"transport_error_kind"` // 0 plain, 1 wraps context.DeadlineExceeded, 2 wraps context.Canceled, 3 os.ErrDeadlineExceeded
+	LongStream       bool `json:"long_stream"`
 }
 
 type completion struct {
@@ -403,12 +406,20 @@ func c16BuilderBody(tape *simrt.Tape, o simwork.Opts, res *simwork.Result) {
 	cs.Named = !tape.Bool(1, 8, "unnamed")
 	reqBody := envelopes(tape.Choose(4, "reqmsgs"), 3)
 	respBody := envelopes(tape.Choose(4, "respmsgs"), 3)
+	if tape.Bool(1, 40, "long-stream") {
+		// a long-lived stream: thousands of small messages in one operation
+		respBody = envelopes(2100+tape.Choose(300, "long-stream.n"), 1)
+		cs.LongStream = true
+	}
 	cs.ReqBody, cs.RespBody = len(reqBody), len(respBody)
 	endKinds := []int{simio.EndEOF, simio.EndEOF, simio.EndEOFWithData, simio.EndError}
 	reqEnd := endKinds[tape.Choose(4, "reqend")]
 	respEnd := endKinds[tape.Choose(4, "respend")]
 	cs.ReqEnd, cs.RespEnd = []string{"eof", "eof-with-data", "error"}[reqEnd], []string{"eof", "eof-with-data", "error"}[respEnd]
 	cs.TransportErr = cs.Side == "client" && tape.Bool(1, 6, "transporterr")
+	if cs.TransportErr {
+		cs.TransportErrKind = tape.Choose(4, "transporterr.kind")
+	}
 	if tape.Bool(1, 2, "cancel") {
 		cs.CancelAtUs = []int{0, 1, 50, 100, 150, 200, 400, 1000}[tape.Choose(8, "cancelat")]
 		res.Faults["context-cancelled"]++
@@ -476,6 +487,18 @@ func c16BuilderBody(tape *simrt.Tape, o simwork.Opts, res *simwork.Result) {
 				simrt.SleepCtx(r.Context(), time.Duration(cs.RespDelayUs)*time.Microsecond, "c16.transport.delay")
 			}
 			if cs.TransportErr {
+				// errors of the transport itself; some of them look like context
+				// errors (a dial or response-header timeout satisfies
+				// errors.Is(err, context.DeadlineExceeded)) while the request's
+				// own context is alive
+				switch cs.TransportErrKind {
+				case 1:
+					return nil, fmt.Errorf("scripted transport: dial timeout: %w", context.DeadlineExceeded)
+				case 2:
+					return nil, fmt.Errorf("scripted transport: %w", context.Canceled)
+				case 3:
+					return nil, os.ErrDeadlineExceeded
+				}
 				return nil, errors.New("scripted transport error")
 			}
 			return &http.Response{StatusCode: 200, Status: "200 OK", Proto: "HTTP/2.0", ProtoMajor: 2,
